@@ -24,6 +24,8 @@ MC_CFG = """SPECIFICATION MCSpec
 CONSTANTS
   MaxMols = %d
   Repeats = %s
+  WithClone = %s
+  MaxOrder = %d
 INVARIANT AlgIsAbs
 INVARIANT ErrorIffAbsent
 INVARIANT Tiling
@@ -34,8 +36,9 @@ TRACE_CFG = "SPECIFICATION TraceSpec\nINVARIANT Accepted\nCHECK_DEADLOCK FALSE\n
 
 # residue kinds: kind -> (resname, atom names); signatures (resname, atom count) are pairwise distinct
 KINDS = {'a': ('RA', ['A1', 'A2']), 'b': ('RB', ['B1']), 'c': ('RC', ['C1', 'C2', 'C3']), 'd': ('RD', ['D1', 'D2']),
-         'e': ('RA', ['E1', 'E2', 'E3']), 'w': ('WAT', ['OW'])}
-PATTERN = {'A': ['a'], 'B': ['b', 'c'], 'C': ['d', 'd'], 'D': ['e'], 'W': ['w']}
+         'e': ('RA', ['E1', 'E2', 'E3']), 'w': ('WAT', ['OW']),
+         'ax': ('RA', ['Z1', 'Z2'])}        # the clone: signature of kind 'a', other atom names
+PATTERN = {'A': ['a'], 'B': ['b', 'c'], 'C': ['d', 'd'], 'D': ['e'], 'W': ['w'], 'X': ['ax']}
 
 
 class Layout:
@@ -266,13 +269,17 @@ def _work_random(args):
 def check(run):
     common.import_repo()
     quick = run.quick
-    res = tlc.run('MC_Recognise', MC_CFG % ((4, 'TRUE') if quick else (6, 'TRUE')), run.scratch, workers=16, timeout=6000,
-                  dump=True, coverage=True, heap='16g')
-    tlc.check_ok(res, 'MC_Recognise', need_actions=('AddTop', 'Finish'))
-    run.add_tlc(res, 'Recognise exhaustive: files of <= %d molecules over A, B (two residues), C (repeated residue), D, solvent; '
-                     'every loading order (+ repeated loads): AlgIsAbs, ErrorIffAbsent, Tiling, ConsumedExactly' % (4 if quick else 6))
-    behs = behaviours_from_dump(res.dump_path)
-    os.remove(res.dump_path)
+    # quick: files of <= 4 molecules, orders of <= 3 topologies incl. the clone X; thorough: files of <= 6 molecules with every
+    # order over the four real species, and files of <= 4 molecules with every order of <= 4 topologies incl. the clone
+    blist = [(4, 'TRUE', 'TRUE', 3)] if quick else [(6, 'TRUE', 'FALSE', 4), (4, 'TRUE', 'TRUE', 4)]
+    behs = []
+    for b in blist:
+        res = tlc.run('MC_Recognise', MC_CFG % b, run.scratch, workers=16, timeout=6000, dump=True, coverage=True, heap='16g')
+        tlc.check_ok(res, 'MC_Recognise', need_actions=('AddTop', 'Finish'))
+        run.add_tlc(res, 'Recognise exhaustive: files of <= %d molecules over A, B (two residues), C (repeated residue), D, solvent; '
+                         'loading orders (repeats %s, clone topology %s, <= %d topologies): AlgIsAbs, ErrorIffAbsent, Tiling, ConsumedExactly' % b)
+        behs += behaviours_from_dump(res.dump_path)
+        os.remove(res.dump_path)
     total = len(behs)
     if total < 1000:
         raise tlc.TLCError('vacuous Recognise run: %d behaviours' % total)
